@@ -109,6 +109,8 @@ func runC17(w *World, r *Report) {
 	r.Rule("C17.eof-identity", "the drains used by the tools node recognise end-of-stream by identity with io.EOF (shared with C13 / C04)", 1)
 	eofIdentityCheck(w, r, "C17.eof-identity", "compose")
 	// ---- the inline call runs while its siblings run
+	r.Rule("C17.stream-errors-forwarded", "the forwarding goroutines behind the merge of the per-tool streams pass every item on, error items included, and stop only at io.EOF or a closed receiver (shared with C08.forwarder-protocol): a tool failing inside its stream fails the streamed call as it fails Invoke", 6)
+	forwarderChecks(w, r, "C17.stream-errors-forwarded")
 	r.Rule("C17.inline-after-spawn", "parallelRunToolCall spawns every sibling before it runs the first call inline (no call may have to wait for call 0)", 1)
 	{
 		prtc := w.Fn("compose", "parallelRunToolCall")
@@ -532,8 +534,40 @@ func runC17(w *World, r *Report) {
 	// ---- unknown-tool
 	r.Rule("C17.unknown-tool", "unknown tool: error unless unknownToolHandler is set, then the handler task is used", 1)
 	{
-		fH := w.Field("compose", "ToolsNode", "unknownToolHandler")
 		nut := w.Fn("compose", "newUnknownToolTask")
+		// the handler is located by use (last argument of newUnknownToolTask), not by name
+		var fH *types.Var
+		var hBase ssa.Value
+		for _, c := range callsTo(gen, nut) {
+			a := c.Common().Args
+			fH, hBase = loadedField(a[len(a)-1])
+		}
+		if fH == nil {
+			r.Fail("C17.unknown-tool", "genToolCallTasks: unknown tool handler source", gen.Pos(), "newUnknownToolTask is not called with a handler loaded from a field")
+			fH = w.Field("compose", "ToolsNode", "tuple") // keeps the rest of the rule running; it fails below
+		}
+		// the configured handler applies whatever tool list the call runs against: it is read from the node itself, or
+		// from an object every producer of which carries it (the per-call tuple built by convTools from WithToolList
+		// knows nothing about the node's configuration)
+		if hBase != nil {
+			if hBase == ssa.Value(gen.Params[0]) {
+				r.OK("C17.unknown-tool", "genToolCallTasks: unknown tool handler is the node's own", gen.Pos(), "read from the receiver (the configuration made at NewToolNode)")
+			} else {
+				owner := namedOf(deref(hBase.Type()))
+				conv := w.Fn("compose", "convTools")
+				setsIt := false
+				for _, fw := range fieldWrites(conv) {
+					if sameField(fw.field, fH) {
+						setsIt = true
+					}
+				}
+				name := "?"
+				if owner != nil {
+					name = owner.Obj().Name()
+				}
+				r.Check(setsIt, "C17.unknown-tool", "genToolCallTasks: unknown tool handler is the node's own", gen.Pos(), "every producer of "+name+" sets "+fH.Name(), "the handler is read from "+name+"."+fH.Name()+", but convTools — which builds the "+name+" of a call that passes WithToolList — never sets it: with a per-request tool list an unknown tool name fails with 'not found in toolsNode indexes' although a handler is configured")
+			}
+		}
 		good := false
 		instrs(gen, func(in ssa.Instruction) {
 			iff, ok := in.(*ssa.If)
@@ -676,5 +710,33 @@ func toolStreamConverterTotal(w *World, r *Report, rule string) {
 	}
 	if n == 0 {
 		undecidedf("%s: converter literal of ToolsNode.Stream not found", rule)
+	}
+}
+
+// toolsCallerCtxCheck: tools run on the context of the call (shared by C17.parallel-protocol's ctx clauses and C18): a
+// streamable tool keeps producing after parallelRunToolCall has returned its reader, so a context that is cancelled
+// when that function returns truncates the streamed tool result while Generate / Invoke get the whole of it.
+func toolsCallerCtxCheck(w *World, r *Report, rule string) {
+	prt := w.Fn("compose", "parallelRunToolCall")
+	ctxP := prt.Params[0]
+	n := 0
+	instrs(prt, func(in ssa.Instruction) {
+		switch x := in.(type) {
+		case *ssa.Go:
+			n++
+			r.Check(len(x.Call.Args) > 0 && x.Call.Args[0] == ssa.Value(ctxP), rule, fmt.Sprintf("parallelRunToolCall: worker #%d runs on the caller's context", n), x.Pos(), "ctx parameter passed through", "workers get a derived context: a streaming tool that honours its context is cancelled as soon as the tools node has handed back the readers — Stream errors or truncates where Generate succeeds, a return-directly result is lost")
+		case *ssa.Call:
+			if staticCallee(x) == nil && !x.Call.IsInvoke() && len(x.Call.Args) > 1 {
+				if _, isCtx := x.Call.Args[0].Type().Underlying().(*types.Interface); isCtx && x.Call.Value.Type().String() == prt.Params[1].Type().String() {
+					n++
+					r.Check(x.Call.Args[0] == ssa.Value(ctxP), rule, fmt.Sprintf("parallelRunToolCall: inline call #%d runs on the caller's context", n), x.Pos(), "ctx parameter passed through", "the inline tool call gets a derived context (cancelled at return): its stream is aborted before anybody reads it")
+				}
+			}
+		}
+	})
+	der := callsNamed(prt, "context.WithCancel", "context.WithTimeout", "context.WithDeadline")
+	r.Check(len(der) == 0, rule, "parallelRunToolCall derives no cancellable context", prt.Pos(), "none", "a context cancelled when parallelRunToolCall returns aborts streamable tools that are still producing")
+	if n < 2 {
+		r.Fail(rule, "parallelRunToolCall: tool launches", prt.Pos(), fmt.Sprintf("%d launches found (worker + inline expected)", n))
 	}
 }
